@@ -257,6 +257,9 @@ def check_server_path(ctx, inputs):
 
 CORPUS = [
     ("corpus", "fixed", ".f90", "procedure(foo) :: bar\n"),
+    # an unclosed macro argument list followed by a long run of blanks (the #define pattern took cubic time; fixed in /repo)
+    ("corpus", "fixed", ".F90", "#define F(" + " " * 5000 + "\nprogram p\nend program p\n"),
+    ("corpus", "fixed", ".F90", "#define G( a , b" + " " * 5000 + "\n#define H(" + "a " * 3000 + "\n"),
     ("corpus", "fixed", ".F90", "#define X \\\n\n"),
     ("corpus", "fixed", ".F90", "#define X a\\b\n#define Y \\q\nx = X + Y\n"),
     ("corpus", "fixed", ".F90", "#define F(a,b) a\\1b\ny = F(1,2)\n"),
